@@ -235,6 +235,36 @@ pub fn run(ctx: &Ctx) -> Report {
         });
         rep.merge(r);
     }
+    // ---- statement texts of every shape (C02's near-miss pool: comments terminated and not, version
+    //      comments, the built-in prefixes in disguise, NUL bytes) in lock-step with a command behind
+    //      them: each is answered (by the backend or by the library) before the server waits again -
+    //      and a server that spins on a text instead of answering is caught by the stuck-case watchdog
+    let n = if ctx.miri { 2 } else { super::c02::NEAR_MISS.len() as u64 * 2 };
+    let r = par_cases(ctx, "C12", "statement-texts", n, |rng, i, rep| {
+        let text = super::c02::NEAR_MISS[(i / 2) as usize % super::c02::NEAR_MISS.len()].as_bytes().to_vec();
+        let mut cmds = Vec::new();
+        let mut scripts = Vec::new();
+        // whichever callback the text reaches, it answers
+        cmds.push(Cmd::query(&text));
+        scripts.push(Script::Q(QProg::completed(1, 0)));
+        cmds.push(Cmd::ping());
+        if rng.bool() {
+            cmds.push(Cmd::query(b"behind"));
+            scripts.push(Script::Q(QProg::completed(2, 0)));
+        }
+        let mut case = Case::new(cmds, scripts);
+        case.conv = false;
+        if i % 2 == 0 {
+            case.arrival = Arrival::Pipelined(1);
+        }
+        let obs = run_case(&case);
+        rep.evaluations += 1;
+        rep.counters.class(format!("statement text #{} {}", i / 2, if i % 2 == 0 { "lock-step" } else { "pipelined" }));
+        let d = || J::obj().set("text", show(&text)).set("arrival", format!("{:?}", case.arrival)).set("outcome", obs.outcome.describe());
+        // the shim's scripts are consumed per callback: a USE text takes on_init (default script: ok)
+        check(&obs, rep, &d);
+    });
+    rep.merge(r);
     // ---- zero-length packets between commands (keep-alives of some proxies; not a command of the
     //      protocol): the unchanged library gives up on the connection, a lenient one skips them. Either
     //      way a command that arrived in the same read behind such a packet is answered before the
